@@ -8,7 +8,7 @@ from . import rules_must as must
 
 PROPERTIES = {
     'C11': {
-        'rules': [must.rule_unlink_both, stale.rule_admit_live, stale.rule_stale_removal],
+        'rules': [must.rule_unlink_both, stale.rule_admit_live, stale.rule_stale_removal, stale.rule_must_drain, must.rule_must_invalidate],
         'explanation': 'Exactly-once is Rust ownership everywhere except the raw-pointer list, so the check is about that boundary: every '
                        'removal from the map unlinks and frees both deque nodes of the entry, maintenance never creates a node for an entry '
                        'that already left the map, and never removes by key alone.',
@@ -92,7 +92,7 @@ PROPERTIES = {
     },
     'C09': {
         'rules': [conc.rule_lock_order, conc.rule_pair_sync_flag, conc.rule_auth_nonblocking, conc.rule_loops,
-                  conc.rule_loop_retry, conc.rule_const_logsizes, conc.rule_housekeeper_lifetime],
+                  conc.rule_loop_retry, conc.rule_const_logsizes, conc.rule_housekeeper_lifetime, stale.rule_must_drain],
         'explanation': 'Deadlock/livelock freedom argued structurally for all schedules: lock-order graph acyclic '
                        '(incl. DashMap shard locks and closures run under them), no blocking primitive, the maintenance '
                        'try-lock flag is released on every normal path, every loop is bounded or makes progress by running '
